@@ -71,6 +71,7 @@ Munmap ==
   /\ Step("Munmap") /\ InLib
   /\ Req("C12", ~Ev.foreign /\ Ev.name \in (s.pend \cup s.live \cup s.orphans))
   /\ Req("C12", Ev.name \in s.live => s.phase = "drop")
+  /\ Req("C03", ~Ev.foreign)         \* memory the injector does not own is never given back on its behalf
   /\ s' = [s EXCEPT !.pend = @ \ {Ev.name}, !.live = @ \ {Ev.name}, !.twr = @ \ {Ev.name},
                     !.dirty = {d \in @ : d[1] # Ev.name}]
 
